@@ -245,6 +245,18 @@ func c07Ops() []histOp {
 	tuMany := tuv.Clone()
 	tuMany.Unk = manyUnk
 	ops = append(ops, decOp("TU:dec(13 unknown fields)", tu, ref.Encode(tu, tuMany), nil), decOp("TU:dec(13 unknown fields, truncated)", tu, ref.Encode(tu, tuMany)[:60], nil))
+	// a second message with many unknown fields, laid out differently (other sizes, other count)
+	var manyUnk2 []byte
+	for i := 0; i < 11; i++ {
+		manyUnk2 = append(manyUnk2, ref.WString, 0x61, byte(i), 0, 0, 0, byte(i+1))
+		for k := 0; k <= i; k++ {
+			manyUnk2 = append(manyUnk2, byte('a'+k))
+		}
+	}
+	tuMany2 := tuv.Clone()
+	tuMany2.F[0] = ref.Int(ref.KI32, 77)
+	tuMany2.Unk = manyUnk2
+	ops = append(ops, decOp("TU:dec(11 unknown strings)", tu, ref.Encode(tu, tuMany2), nil))
 	// registrations that fail in different ways (each must leave no trace)
 	for _, d := range badDefs() {
 		switch d.class {
